@@ -73,6 +73,9 @@ class assert_equal(RuntimeAssertionFeedback):
     _inverse_operator = "!="
 
     def __init__(self, left, right, exact_strings=False, delta=DELTA, **kwargs):
+        if delta is None:
+            # As documented: no delta given means the default one
+            delta = self.DELTA
         super().__init__(SandboxedValue(left), SandboxedValue(right),
                          exact_strings=exact_strings, delta=delta, **kwargs)
 
@@ -100,6 +103,9 @@ class assert_not_equal(RuntimeAssertionFeedback):
     _inverse_operator = "=="
 
     def __init__(self, left, right, exact_strings=False, delta=DELTA, **kwargs):
+        if delta is None:
+            # As documented: no delta given means the default one
+            delta = self.DELTA
         super().__init__(SandboxedValue(left), SandboxedValue(right),
                          exact_strings=exact_strings, delta=delta, **kwargs)
 
